@@ -436,7 +436,32 @@ def parse_out(path, drop_x=True):
 
 
 class ImplRunnerDied(Exception):
-    pass
+    """the implementation runner was killed (abort, runaway allocation) or did not terminate; .case holds the script
+    of the case it was executing when that can be determined"""
+    def __init__(self, msg, case=None, hung=False):
+        Exception.__init__(self, msg)
+        self.case = case
+        self.hung = hung
+
+
+RUNNER_TIMEOUT = 600      # seconds per chunk of cases (a chunk of the unchanged tree takes seconds)
+
+
+def unfinished_case(chunk_lines, out_path):
+    """the first case of a chunk that has no complete result block in the runner's output"""
+    done = set()
+    try:
+        done = set(parse_out(out_path, drop_x=True).keys())
+    except OSError:
+        pass
+    cur = []
+    for l in chunk_lines:
+        cur.append(l)
+        if l == "end":
+            if cur and cur[0].startswith("case ") and cur[0][5:] not in done:
+                return cur
+            cur = []
+    return None
 
 
 def run_pair(axh, lines, dbg, ovf, tag, mode="model", keep_x=False):
@@ -452,7 +477,12 @@ def run_pair(axh, lines, dbg, ovf, tag, mode="model", keep_x=False):
         open(cf, "w").write("\n".join(chunks[k]) + "\n")
         of, mf = os.path.join(work, "o%d.txt" % k), os.path.join(work, "m%d.txt" % k)
         with open(os.devnull, "w") as dn:
-            r1 = subprocess.run([axh, "run", cf, of], stdout=dn, stderr=dn, timeout=3600).returncode
+            try:
+                r1 = subprocess.run([axh, "run", cf, of], stdout=dn, stderr=dn, timeout=RUNNER_TIMEOUT).returncode
+            except subprocess.TimeoutExpired:
+                return "hung", 0, ""
+        if r1 != 0:
+            return r1, 0, ""
         r2 = subprocess.run([AXM, cf, of, mf, "1" if dbg else "0", "1" if ovf else "0", mode], timeout=3600,
                             stdout=subprocess.PIPE, stderr=subprocess.STDOUT)
         return r1, r2.returncode, r2.stdout.decode()[-300:]
@@ -462,7 +492,11 @@ def run_pair(axh, lines, dbg, ovf, tag, mode="model", keep_x=False):
     impl, model = {}, {}
     for k in range(len(chunks)):
         if rcs[k][0] != 0:
-            raise ImplRunnerDied("implementation runner died on chunk %d (exit %s); cases in %s" % (k, rcs[k][0], os.path.join(work, "c%d.txt" % k)))
+            case = unfinished_case(chunks[k], os.path.join(work, "o%d.txt" % k))
+            hung = rcs[k][0] == "hung"
+            raise ImplRunnerDied("the implementation runner %s while executing %s" % (
+                "did not terminate within %d s" % RUNNER_TIMEOUT if hung else "died (exit %s)" % rcs[k][0],
+                case[0] if case else "a case of " + os.path.join(work, "c%d.txt" % k)), case=case, hung=hung)
         if rcs[k][1] != 0:
             raise RuntimeError("model runner failed on chunk %d: %s" % (k, rcs[k]))
         impl.update(parse_out(os.path.join(work, "o%d.txt" % k), drop_x=not keep_x))
@@ -611,7 +645,13 @@ def run_check(prop, tier, seed, replay=None):
             broken.append(("coqchk", "exit %s, axioms %s, %s" % (ci["exit"], bad, "; ".join(ci["other"])[:300] or cout[-300:])))
     nobl, per_file, cone = count_obligations(prop)
     # 3. tie + 4. spec comparison (property-specific)
-    res = props.correspondence(prop, tier, seed, broken_so_far=bool(broken))
+    try:
+        res = props.correspondence(prop, tier, seed, broken_so_far=bool(broken))
+    except ImplRunnerDied as e:
+        # a case that kills the process or never returns is a failing input in its own right
+        res = dict(violations=[(str(e), dict(case=e.case, note="replay: run this case script through harness/axh; "
+                                             "the unchanged tree completes it"))],
+                   broken=[], known=[], cases=0, rule="aborted: " + str(e))
     for b in res.get("broken", []):
         broken.append(b)
     violations = res.get("violations", [])   # list of (description, replay payload)
